@@ -116,7 +116,11 @@ def run(chk):
         base = _assigned_paths(Slicer(sym, cfg.module, cfg.subject, sym.cls("Verb")).slice(cfg.func.body))
         for vname in ("GroupBy", "Ungroup", "Alias"):
             v = sym.cls(vname)
-            items = Slicer(sym, cfg.module, cfg.subject, v).slice(cfg.func.body)
+            from ..dispatch import try_slice as _ts2
+
+            items = _ts2(chk, "R3", Slicer(sym, cfg.module, cfg.subject, v), cfg.func.body)
+            if items is None:
+                continue
             extra = _assigned_paths(items) - base
             # only the sibling's *state* counts (the cache object's fields / the components the compiler returns);
             # other assignments are temporaries of the slice
